@@ -171,6 +171,14 @@ func c18RandomCase(rnd *rand.Rand, maxK int, fmts []string) c18Case {
 	}
 	c.Count = len(ps)
 
+	// per-part attachments: notes slides on a random subset of the declared slides
+	if c.Fmt == "pptx" {
+		for j := range c.Parts {
+			if c.Parts[j].Decl > 0 && rnd.Intn(2) == 0 {
+				c.Parts[j].Notes = true
+			}
+		}
+	}
 	// the spelling of the declarations
 	pr.Xml = c18Xml{Rev: rnd.Intn(2) == 0, Prefix: pick("r", "r", "rel", "ns1"), Single: rnd.Intn(2) == 0, Foreign: rnd.Intn(2) == 0,
 		OC: rnd.Intn(2) == 0, Gaps: rnd.Intn(2) == 0, Decl: pick("std", "std", "none", "bom")}
@@ -242,8 +250,13 @@ func c18Record(i int, raw []byte) Result {
 		}
 		events = append(events, pkg)
 		segs++
-		for _, a := range obs {
+		for _, a0 := range obs {
+			a, nm := c18Notes(&c, a0) // attachments: checked here, the trace speaks of the parts
 			events = append(events, Event{"event": "Begin", "api": a.Name})
+			if nm != nil {
+				events = append(events, Event{"event": "Error", "api": a.Name, "msg": nm.Symptom + ": " + nm.What})
+				continue
+			}
 			if a.Err != "" {
 				if c.Prof.Missing == 0 { // refusing a package with an absent declared part is not asserted
 					events = append(events, Event{"event": "Error", "api": a.Name, "msg": a.Err})
